@@ -161,6 +161,45 @@ def run(tier):
             r = cfg.blocks_reachable_from(ppd, [other], avoid=errs)
             okdup = not (set(cfg.return_blocks(ppd)) & r)
     rep.check(okdup, "duplicate-handle-err", "parser_process_directives", "a repeated %TAG handle no longer leads to an error", site=ppd.span)
+    # a reserved (unknown) directive is ignored: if the scanner stands in for it with a TagDirective whose handle is empty, that
+    # placeholder must not be taken for a declaration - the duplicate test and the insertion sit on the non-empty edge of a test of the
+    # handle (otherwise two reserved directives in one document are "the same handle declared twice")
+    TOK = "saphyr_parser::scanner::TokenType"
+    placeholders = []
+    for k2, g in sorted(F.fns.items()):
+        if g.crate != "saphyr_parser" or "::test" in k2:
+            continue
+        for bi, si, st in cfg.stmts(g):
+            if st["k"] == "assign" and st["rv"]["k"] == "agg" and st["rv"].get("adt") == TOK and st["rv"].get("variant") == "TagDirective" and st["rv"]["ops"]:
+                e0 = cfg.expr_operand(g, st["rv"]["ops"][0], 6)
+                es = cfg.expr_str(e0)
+                if "Default>::default" in es or "::default(" in es or e0 == ("const", "") or "String::new" in es or "Cow::Borrowed('')" in es:
+                    placeholders.append((k2, st["sp"]))
+    rep.extra["reserved_directive_placeholders"] = len(placeholders)
+    if placeholders:
+        uses = [bb for bb, t, ck, fr in ppd.calls() if ck and ck.endswith(("::contains_key", "::insert")) and ck.startswith("std::collections::")]
+        guarded = []
+        for bb in uses:
+            okg = False
+            for d in ppd.dominators().get(bb, ()):
+                tt = ppd.blocks[d]["term"]
+                if tt["k"] != "switch" or tt["dty"] != "bool":
+                    continue
+                e = cfg.expr_operand(ppd, tt["discr"], 12)
+                neg = False
+                while e[0] == "un" and e[1] == "Not":
+                    e = e[2]
+                    neg = not neg
+                if e[0] == "call" and e[1] and e[1].endswith("::is_empty") and "TagDirective" in cfg.expr_str(e):
+                    m, other = cfg.switch_edge_blocks(ppd, d)
+                    nonempty = other if neg else m.get(0)
+                    if nonempty is not None and (bb == nonempty or cfg.dominated_by_edge(ppd, bb, d, nonempty)):
+                        okg = True
+            guarded.append(okg)
+        rep.check(bool(uses) and all(guarded), "reserved-directive-not-a-handle", "parser_process_directives",
+                  "the scanner stands in for a reserved directive with a %TAG token whose handle is empty, and the directive loop treats that placeholder as a "
+                  "declaration: two reserved directives in one document are rejected as a handle declared twice", site=ppd.span,
+                  detail={"placeholder_built_in": [short(k2) for k2, _ in placeholders]})
 
     # (b) resolve_tag
     rt = F.fn(PARSER + "::resolve_tag")
